@@ -34,7 +34,8 @@ def cdf(distr, alpha, beta, x):
     if x <= 0:
         return mpmath.mpf(0)
     if distr == "lognorm":
-        return (1 + mpmath.erf((mpmath.log(x) - alpha) / mpmath.sqrt(2 * beta))) / 2
+        # erfc keeps relative accuracy in the lower tail (1 + erf loses everything below 10**-dps)
+        return mpmath.erfc(-(mpmath.log(x) - alpha) / mpmath.sqrt(2 * beta)) / 2
     return mpmath.gammainc(alpha, 0, beta * x, regularized=True)
 
 
